@@ -1649,13 +1649,11 @@ func CharCode(vm *VM, char, code Term, k Cont, env *Env) *Promise {
 		case Variable:
 			return Error(InstantiationError(env))
 		case Integer:
-			r := rune(cd)
-
-			if !utf8.ValidRune(r) {
+			if !validCharacterCode(cd) {
 				return Error(representationError(flagCharacterCode, env))
 			}
 
-			return Unify(vm, ch, Atom(r), k, env)
+			return Unify(vm, ch, Atom(rune(cd)), k, env)
 		default:
 			return Error(typeError(validTypeInteger, code, env))
 		}
@@ -1676,6 +1674,11 @@ func CharCode(vm *VM, char, code Term, k Cont, env *Env) *Promise {
 	default:
 		return Error(typeError(validTypeCharacter, ch, env))
 	}
+}
+
+// validCharacterCode reports whether i is a character code, without truncating it first.
+func validCharacterCode(i Integer) bool {
+	return i >= 0 && i <= utf8.MaxRune && utf8.ValidRune(rune(i))
 }
 
 // PutByte outputs an integer byte to a stream represented by streamOrAlias.
@@ -2379,7 +2382,7 @@ func NumberCodes(vm *VM, num, codes Term, k Cont, env *Env) *Promise {
 		case Variable:
 			return numberCodesWrite(vm, num, codes, k, env)
 		case Integer:
-			if !utf8.ValidRune(rune(e)) {
+			if !validCharacterCode(e) {
 				return Error(representationError(flagCharacterCode, env))
 			}
 			_, _ = sb.WriteRune(rune(e))
@@ -2429,7 +2432,7 @@ func numberCodesWrite(vm *VM, num, codes Term, k Cont, env *Env) *Promise {
 		case Variable:
 			break
 		case Integer:
-			if !utf8.ValidRune(rune(e)) {
+			if !validCharacterCode(e) {
 				return Error(representationError(flagCharacterCode, env))
 			}
 		default:
